@@ -348,6 +348,7 @@ REWRITES_DOC = {
     'R16': '`let X: T = E.collect();` -> `let X: T = FROM_ITER(E);` (Iterator::collect is FromIterator::from_iter(self); the FromIterator impl is the one the annotated type and the item type select)',
     'R17': '`for PAT in E {` -> `for verif_xK in E { let PAT = verif_xK;` (the loop pattern is bound exactly like let)',
     'R18': '(fallback, only when a body contains closures the proof has no contract for) `E.map(|PAT| X)` -> `match E { Some(PAT) => Some(X), None => None }`: std\'s definition of Option::map with the closure literal beta-reduced; on a non-Option receiver the text does not type-check and the unit is undecided as before',
+    'R19': 'an associated type of the implemented trait written out as the type the impl assigns to it (`Self::ValueIter` -> `ValueIter<\'a>`), where a trait impl is verified as inherent functions',
     'R15': 'fully qualified `std::cmp::f` / `core::cmp::f` -> `cmp::f` (the path through the crate\'s own `use std::cmp;`; both name the function the model module cmp declares)',
     'R8': 'struct fields widened to pub inside the unit',
     'R1': 'doc comments / #[inline] / derives dropped',
@@ -670,6 +671,19 @@ def weave_fn(src, container, name, nth, opts, subs, mode, sig_only=False):
         if k:
             rewrites['R12'] = k
     for kind, arg, lines in subs:
+        if kind == 'assoc_type':
+            # R19: `//@assoc_type Self::ValueIter ValueIter<'a>` - an associated type of the trait written out as the type the impl block
+            # assigns to it (`type ValueIter = ValueIter<'a>;`): needed where a trait impl is verified as inherent functions (R4b)
+            a_, b_ = arg.split(None, 1)
+            # (in the signature the type with its parameters; in the body - struct literals, paths - the bare type name)
+            bo_ = Body(text).body_open()
+            bo_ = bo_ if bo_ >= 0 else len(text)
+            sig_, k1 = re.subn(r'(?<![\w:])' + re.escape(a_) + r'(?![A-Za-z0-9_])', b_.strip(), text[:bo_])
+            body_, k2 = re.subn(r'(?<![\w:])' + re.escape(a_) + r'(?![A-Za-z0-9_])', re.sub(r'<.*>$', '', b_.strip()), text[bo_:])
+            text = sig_ + body_
+            if k1 + k2:
+                rewrites['R19'] = rewrites.get('R19', 0) + k1 + k2
+    for kind, arg, lines in subs:
         if kind == 'collect_as':
             # R16: `let [mut] X: TYPE = E.collect();` -> `let [mut] X: TYPE = FN(E);` with FN the FromIterator impl that the annotated type and
             # the item type select (`Iterator::collect` IS `FromIterator::from_iter(self)`, std source)
@@ -802,7 +816,7 @@ def weave_fn(src, container, name, nth, opts, subs, mode, sig_only=False):
     # collect sub-directives
     for kind, arg, lines in subs:
         body_text = '\n'.join(lines)
-        if kind in ('inst', 'rename_generic', 'desugar_by_ref', 'desugar_for', 'desugar_for_into', 'desugar_closure_patterns', 'model_adapters', 'deref_operand', 'call_rename', 'collect_as', 'hoist_for_pattern'):
+        if kind in ('inst', 'rename_generic', 'desugar_by_ref', 'desugar_for', 'desugar_for_into', 'desugar_closure_patterns', 'model_adapters', 'deref_operand', 'call_rename', 'collect_as', 'hoist_for_pattern', 'assoc_type'):
             continue
         if kind == 'attr':
             if not sig_only:
